@@ -445,6 +445,10 @@ func concreteIndex(fr *frame, a []value) value {
 	in := fr.in
 	s1, ok1 := in.concreteSeq(a[0])
 	s2, ok2 := in.concreteSeq(a[1])
+	if ok2 && len(s2) == 1 && !ok1 {
+		// one-byte concrete needle in symbolic data: same as IndexByte (what the library does for n == 1)
+		return indexByte(fr, []value{a[0], in.ctx.BV(8, uint64(s2[0]))})
+	}
 	if !ok1 || !ok2 {
 		panic(engineErr("Index on symbolic data"))
 	}
